@@ -587,7 +587,13 @@ def load(
                 p = -p
             r = bdd.find_or_add(i, p, q)
             umap[abs(u)] = r
-    bdd.roots.update(roots)
+    # map the node identifiers in the file
+    # to references in `bdd`
+    for u in roots:
+        r = umap[abs(u)]
+        if u < 0:
+            r = -r
+        bdd.roots.add(r)
     return bdd
 
 
